@@ -66,3 +66,6 @@ func gvcOff[T any](s []T) int    { panic("ghost") }
 // gvcUnchangedOutside(b): every byte of b's backing array outside b[0:len(b)] has the
 // value it had in the pre-state (old). Ghost.
 func gvcUnchangedOutside(b []byte) bool { panic("ghost") }
+
+// gvcFreshSlice(s): s is empty or its backing array was allocated during the call.
+func gvcFreshSlice[T any](s []T) bool { panic("ghost") }
